@@ -71,7 +71,7 @@ def run(run, replay=None):
         run.count(('example', fn), nontrivial=True)
         n += 1
     run.sample({'ids': paths[-1], 'file_head': bytes(cases[len(paths)]['file'][:200]).decode('latin-1')})
-    can = _rcommon.reader_canaries(cases, rng)
+    can = run.tolerant(lambda: _rcommon.reader_canaries(cases, rng))
     # files whose declared length exceeds the data present are C07's subject (known finding F9), not C03's
     v = run.judge('Trace_Reader', cases + can, cat.tables(), canary_ids=[c['id'] for c in can],
                   describe=describe, out_of_scope_devs=('D_ShortReadAccepted',))
